@@ -1,6 +1,8 @@
 package props
 
 import (
+	"bytes"
+	"context"
 	"encoding/json"
 	"fmt"
 	"os"
@@ -10,6 +12,7 @@ import (
 	"strings"
 	"sync"
 	"testing"
+	"time"
 	"unsafe"
 
 	seccomp "github.com/elastic/go-seccomp-bpf"
@@ -28,10 +31,14 @@ import (
 type c13Case struct {
 	Policy spec.Policy   `json:"policy"`
 	Others []spec.Policy `json:"others"`
-	K      int           `json:"k"`                // compilations of the same value
-	G      int           `json:"goroutines"`       // concurrent kind only
-	Shared bool          `json:"shared"`           // concurrent kind: shallow copies sharing slices
-	Mutate string        `json:"mutate,omitempty"` // history kind: modify the value in place after the first compilations (default / group-action / drop-group)
+	K      int           `json:"k"`          // compilations of the same value
+	G      int           `json:"goroutines"` // concurrent kind only
+	Shared bool          `json:"shared"`     // concurrent kind: shallow copies sharing slices
+	// Spare: the caller's slices have spare capacity that other slices of the same policy live in: all Names of all
+	// groups are consecutive sub-slices of one array (each with capacity up to the end of the array), likewise all
+	// conditional entries and all condition lists. Writing "behind the end" of one slice then changes a neighbour.
+	Spare  bool   `json:"spare,omitempty"`
+	Mutate string `json:"mutate,omitempty"` // history kind: modify the value in place after the first compilations (default / group-action / drop-group)
 }
 
 type hdr struct {
@@ -44,6 +51,61 @@ type snapshot struct {
 	def    seccomp.Action
 	groups []seccomp.SyscallGroup // deep copy
 	hdrs   []hdr
+	spare  []string // printed contents of every slice up to its capacity
+}
+
+// spareContents prints every slice of the policy up to its capacity (what lies behind the visible end belongs to the
+// caller as well).
+func spareContents(p *seccomp.Policy) []string {
+	var out []string
+	out = append(out, fmt.Sprintf("%+v", p.Syscalls[:cap(p.Syscalls)]))
+	for _, g := range p.Syscalls {
+		out = append(out, fmt.Sprintf("%q", g.Names[:cap(g.Names)]))
+		out = append(out, fmt.Sprintf("%+v", g.NamesWithCondtions[:cap(g.NamesWithCondtions)]))
+		for _, nc := range g.NamesWithCondtions {
+			out = append(out, fmt.Sprintf("%+v", nc.Conditions[:cap(nc.Conditions)]))
+		}
+	}
+	return out
+}
+
+// shareBacking rebuilds the slices of the policy as described at c13Case.Spare.
+func shareBacking(p *seccomp.Policy) {
+	nNames, nEntries, nConds := 0, 0, 0
+	for _, g := range p.Syscalls {
+		nNames += len(g.Names)
+		nEntries += len(g.NamesWithCondtions)
+		for _, nc := range g.NamesWithCondtions {
+			nConds += len(nc.Conditions)
+		}
+	}
+	names := make([]string, 0, nNames+2)
+	entries := make([]seccomp.NameWithConditions, 0, nEntries+2)
+	conds := make(seccomp.ArgumentConditions, 0, nConds+2)
+	for i := range p.Syscalls {
+		g := &p.Syscalls[i]
+		if g.Names != nil {
+			off := len(names)
+			names = append(names, g.Names...)
+			g.Names = names[off:len(names)]
+		}
+		if g.NamesWithCondtions != nil {
+			off := len(entries)
+			for _, nc := range g.NamesWithCondtions {
+				if nc.Conditions != nil {
+					co := len(conds)
+					conds = append(conds, nc.Conditions...)
+					nc.Conditions = conds[co:len(conds)]
+				}
+				entries = append(entries, nc)
+			}
+			g.NamesWithCondtions = entries[off:len(entries)]
+		}
+	}
+	// sentinels in the unused tail, so that a write there shows as well
+	names = append(names, "sentinel-a", "sentinel-b")
+	entries = append(entries, seccomp.NameWithConditions{Name: "sentinel"}, seccomp.NameWithConditions{Name: "sentinel"})
+	conds = append(conds, seccomp.Condition{Argument: 77}, seccomp.Condition{Argument: 78})
 }
 
 func headers(p *seccomp.Policy) []hdr {
@@ -62,7 +124,7 @@ func headers(p *seccomp.Policy) []hdr {
 }
 
 func takeSnapshot(p *seccomp.Policy) snapshot {
-	s := snapshot{def: p.DefaultAction, hdrs: headers(p)}
+	s := snapshot{def: p.DefaultAction, hdrs: headers(p), spare: spareContents(p)}
 	for _, g := range p.Syscalls {
 		g2 := seccomp.SyscallGroup{Action: g.Action}
 		if g.Names != nil {
@@ -108,6 +170,13 @@ func (s snapshot) unchanged(p *seccomp.Policy) error {
 	now := headers(p)
 	if len(now) != len(s.hdrs) {
 		return fmt.Errorf("slice structure changed")
+	}
+	if sp := spareContents(p); len(sp) == len(s.spare) {
+		for i := range sp {
+			if sp[i] != s.spare[i] {
+				return fmt.Errorf("memory of the caller's slice %d (up to its capacity) changed: %s -> %s", i, clip(s.spare[i], 300), clip(sp[i], 300))
+			}
+		}
 	}
 	for i := range now {
 		if now[i] != s.hdrs[i] {
@@ -164,6 +233,7 @@ func drawC13(t *rapid.T) c13Case {
 	for i := 0; i < n; i++ {
 		c.Others = append(c.Others, gen.Policy(t, drawArch(t), gen.Opts{Profile: gen.Small}))
 	}
+	c.Spare = rapid.IntRange(0, 2).Draw(t, "spare") == 0
 	if rapid.IntRange(0, 3).Draw(t, "mutate") == 0 {
 		c.Mutate = []string{"default", "group-action", "drop-group", "retarget", "share-groups"}[rapid.IntRange(0, 4).Draw(t, "mutateKind")]
 		if c.Mutate == "retarget" || c.Mutate == "share-groups" {
@@ -183,6 +253,9 @@ func checkC13History(raw json.RawMessage) (ev.Result, error) {
 		return ev.Result{}, ev.Inconclusivef("bad case: %v", err)
 	}
 	sp := c.Policy.ToSeccomp()
+	if c.Spare {
+		shareBacking(sp)
+	}
 	snap := takeSnapshot(sp)
 	first, ferr, pan := assembleAny(sp)
 	if pan != nil {
@@ -280,6 +353,9 @@ func checkC13History(raw json.RawMessage) (ev.Result, error) {
 		return ev.Result{}, fmt.Errorf("equal policy values: %v", err)
 	}
 	res := ev.Result{Classes: []string{"history"}}
+	if c.Spare {
+		res.Classes = append(res.Classes, "caller-slices-share-one-backing-array")
+	}
 	if ferr != nil {
 		res.Classes = append(res.Classes, "rejected-by-compiler")
 		return res, nil
@@ -577,4 +653,79 @@ func checkC13TextProcesses(raw json.RawMessage) (ev.Result, error) {
 		}
 	}
 	return ev.Result{Classes: []string{"text-forms-across-processes"}, NonTrivial: true, Sub: c.Processes}, nil
+}
+
+// ---- the first use of the library by a process happens in several goroutines at once (race build) ----
+
+type c13FirstUseCase struct {
+	Ops []string `json:"ops"`
+	K   int      `json:"k"`
+}
+
+var c13FirstOps = []string{"getinfo-native", "getinfo-native", "assemble-native", "assemble-native", "getinfo-name", "dump", "action-text", "flag-text", "unpack"}
+
+func drawC13FirstUse(t *rapid.T) c13FirstUseCase {
+	n := rapid.IntRange(2, 16).Draw(t, "goroutines")
+	c := c13FirstUseCase{K: rapid.IntRange(1, 3).Draw(t, "k")}
+	same := rapid.IntRange(0, 2).Draw(t, "allSame") == 0
+	first := c13FirstOps[rapid.IntRange(0, len(c13FirstOps)-1).Draw(t, "op")]
+	for i := 0; i < n; i++ {
+		op := first
+		if !same {
+			op = c13FirstOps[rapid.IntRange(0, len(c13FirstOps)-1).Draw(t, "op")]
+		}
+		c.Ops = append(c.Ops, op)
+	}
+	return c
+}
+
+func checkC13FirstUse(raw json.RawMessage) (ev.Result, error) {
+	var c c13FirstUseCase
+	if err := json.Unmarshal(raw, &c); err != nil {
+		return ev.Result{}, ev.Inconclusivef("bad case: %v", err)
+	}
+	bin, err := kchild.Bin("racefirst")
+	if err != nil {
+		return ev.Result{}, ev.Inconclusivef("%v", err)
+	}
+	plan, _ := json.Marshal(c)
+	ctx, cancel := context.WithTimeout(context.Background(), 60*time.Second)
+	defer cancel()
+	cmd := exec.CommandContext(ctx, bin, string(plan))
+	cmd.Env = append(os.Environ(), "GORACE=halt_on_error=1 exitcode=66 atexit_sleep_ms=0")
+	var so, se bytes.Buffer
+	cmd.Stdout, cmd.Stderr = &so, &se
+	rerr := cmd.Run()
+	if ctx.Err() != nil {
+		return ev.Result{}, ev.Inconclusivef("helper timed out")
+	}
+	if strings.Contains(se.String(), "WARNING: DATA RACE") {
+		return ev.Result{}, fmt.Errorf("data race when the first use of the library by a process happens in %d goroutines at once (%v):\n%s", len(c.Ops), c.Ops, clip(se.String(), 1800))
+	}
+	if rerr != nil {
+		return ev.Result{}, ev.Inconclusivef("helper failed: %v (%s)", rerr, clip(se.String(), 300))
+	}
+	var results []string
+	if err := json.Unmarshal(bytes.TrimSpace(so.Bytes()), &results); err != nil || len(results) != len(c.Ops) {
+		return ev.Result{}, ev.Inconclusivef("helper output %q", clip(so.String(), 200))
+	}
+	// goroutines that did the same thing saw the same result
+	seen := map[string]string{}
+	for i, op := range c.Ops {
+		if strings.HasPrefix(results[i], "panic:") {
+			return ev.Result{}, fmt.Errorf("goroutine %d (%s) panicked: %s", i, op, results[i])
+		}
+		if op == "getinfo-name" || op == "unpack" || op == "action-text" || op == "flag-text" {
+			continue // result depends on the goroutine index
+		}
+		if prev, ok := seen[op]; ok && prev != results[i] {
+			return ev.Result{}, fmt.Errorf("concurrent first uses (%s) gave different results: %q and %q", op, prev, results[i])
+		}
+		seen[op] = results[i]
+	}
+	return ev.Result{Classes: []string{"first-use-concurrent"}, NonTrivial: len(seen) > 0, Sub: len(c.Ops)}, nil
+}
+
+func TestC13FirstUse(t *testing.T) {
+	ev.Prop(t, "C13", "first-use", drawC13FirstUse, checkC13FirstUse)
 }
